@@ -243,6 +243,7 @@ type load struct {
 	CondOn   bool
 	CondGt   int
 	CondEq   int // 0: no second alternative; else "... OR v = CondEq-1"
+	CondNe   int // 0: none; else a second condition "v <> CondNe-1" given for the relation itself
 	Shape    string // struct slice ptrslice
 	Levels   [][]row
 	Hops     []hop
@@ -265,7 +266,7 @@ func (l load) Event(caseNo int) hx.M {
 		rs = append(rs, r.JSON())
 	}
 	return hx.M{"ev": "Load", "case": caseNo, "fam": l.Fam, "op": l.Op, "path": l.Path, "unscoped": l.Unscoped, "dup": l.Dup,
-		"cond": hx.M{"on": l.CondOn, "gt": l.CondGt, "eq": l.CondEq - 1}, "shape": l.Shape, "levels": lv, "hops": hs, "result": rs, "count": l.Count, "err": l.Err}
+		"cond": hx.M{"on": l.CondOn, "gt": l.CondGt, "eq": l.CondEq - 1, "ne": l.CondNe - 1}, "shape": l.Shape, "levels": lv, "hops": hs, "result": rs, "count": l.Count, "err": l.Err}
 }
 
 // ---------------------------------------------------------------------------------------------
@@ -482,6 +483,15 @@ func (e *Env) runF1(r *rand.Rand, d *f1data) load {
 			}
 			l.CondEq = eq + 1
 			switch {
+			case eq < 0 && r.Intn(3) == 0:
+				// conditions for every direct relation, plus conditions of the relation's own: both apply
+				l.CondNe = 1 + r.Intn(4)
+				ne := l.CondNe - 1
+				if r.Intn(2) == 0 {
+					tx = tx.Preload(clause.Associations, func(db *gorm.DB) *gorm.DB { return db.Where("v > ?", gt) }).Preload("Kids", "v <> ?", ne)
+				} else {
+					tx = tx.Preload("Kids", "v <> ?", ne).Preload(clause.Associations, func(db *gorm.DB) *gorm.DB { return db.Where("v > ?", gt) })
+				}
 			case eq >= 0 && r.Intn(2) == 0:
 				tx = tx.Preload("Kids", "v > ? OR v = ?", gt, eq)
 			case eq >= 0:
@@ -548,7 +558,10 @@ func (e *Env) runF1(r *rand.Rand, d *f1data) load {
 		}
 		switch o.op {
 		case "preload":
-			if l.CondOn && l.CondEq > 0 {
+			if l.CondOn && l.CondNe > 0 {
+				gt, ne := l.CondGt, l.CondNe-1
+				q = q.Preload(clause.Associations, func(db *gorm.DB) *gorm.DB { return db.Where("v > ?", gt) }).Preload("Kids", "v <> ?", ne)
+			} else if l.CondOn && l.CondEq > 0 {
 				q = q.Preload("Kids", "v > ? OR v = ?", l.CondGt, l.CondEq-1)
 			} else if l.CondOn {
 				q = q.Preload("Kids", "v > ?", l.CondGt)
